@@ -12,7 +12,7 @@ use std::time::Duration;
 
 const PROP: &str = "C20";
 pub const PORT: u16 = 6503;
-pub const N_STATES: usize = 13;
+pub const N_STATES: usize = 17;
 pub const N_VARIANTS: usize = 7;
 
 pub const STATE_NAMES: [&str; N_STATES] = [
@@ -29,6 +29,10 @@ pub const STATE_NAMES: [&str; N_STATES] = [
     "S10_dap_request_in_flight",
     "S11_pause_and_continue_before_configuration_done",
     "S12_test_running_project_without_mos_toml",
+    "S13_awkward_requests_while_paused",
+    "S14_debug_port_in_use_by_another_process",
+    "S15_debugger_floods_without_reading",
+    "S16_next_into_a_subroutine_that_never_returns",
 ];
 pub const VARIANT_NAMES: [&str; N_VARIANTS] = [
     "V1_shutdown_exit_close",
@@ -41,6 +45,7 @@ pub const VARIANT_NAMES: [&str; N_VARIANTS] = [
 ];
 
 const LONG_PROGRAM: &str = ".test \"t\" {\n    ldx #0\nouter:\n    ldy #0\ninner:\n    iny\n    bne inner\n    inx\n    bne outer\n    brk\n}\n";
+const ENDLESS_SUB_PROGRAM: &str = ".test \"t\" {\n    lda #1\n    jsr forever\n    brk\nforever:\n    jmp forever\n}\n";
 const SHORT_PROGRAM: &str = ".test \"t\" {\n    lda #1\n    ldx #2\n    brk\n}\n";
 
 #[derive(Clone, Debug)]
@@ -86,7 +91,8 @@ pub fn gen_case(seed: u64, k: u64) -> Case {
         },
         net: mos_simrt::net::NetKnobs {
             max_chunk: *r.pick(&[0usize, 0, 1, 7, 64]),
-            buffer_cap: *r.pick(&[1usize << 20, 1 << 20, 4096, 256]),
+            // (the flooding debugger of S15 needs socket buffers of a realistic size to fill)
+            buffer_cap: if cell / N_VARIANTS == 15 { *r.pick(&[65536usize, 4096]) } else { *r.pick(&[1usize << 20, 1 << 20, 4096, 256]) },
         },
         max_steps: if cell % N_VARIANTS == 3 { 3_000_000 } else { 400_000 },
     };
@@ -118,22 +124,21 @@ fn sim_disk(state: usize) -> SimDisk {
     if state != 12 {
         d.add_file(format!("{}/mos.toml", WS), b"[build]\nentry = \"main.asm\"\n".to_vec());
     }
-    let prog = if state == 7 { SHORT_PROGRAM } else { LONG_PROGRAM };
-    d.add_file(format!("{}/main.asm", WS), prog.as_bytes().to_vec());
+    d.add_file(format!("{}/main.asm", WS), program_of(state).as_bytes().to_vec());
     d
 }
 
 fn program_of(state: usize) -> &'static str {
-    if state == 7 {
-        SHORT_PROGRAM
-    } else {
-        LONG_PROGRAM
+    match state {
+        7 => SHORT_PROGRAM,
+        16 => ENDLESS_SUB_PROGRAM,
+        _ => LONG_PROGRAM,
     }
 }
 
 /// Drive the DAP client into the requested session state. Returns false if the state could not be reached.
-fn reach_state(state: usize, dap: &mut Option<DapClient>, notes: &mut Vec<String>) -> bool {
-    if state == 0 {
+fn reach_state(state: usize, seed: u64, dap: &mut Option<DapClient>, notes: &mut Vec<String>) -> bool {
+    if state == 0 || state == 14 {
         return true;
     }
     let mut c = match DapClient::connect(PORT, 400) {
@@ -166,6 +171,10 @@ fn reach_state(state: usize, dap: &mut Option<DapClient>, notes: &mut Vec<String
             clock::sleep(Duration::from_millis(3));
             return Ok(());
         }
+        if state == 16 {
+            // breakpoint on the `jsr forever` line (1-based line 3)
+            c.request("setBreakpoints", json!({"source": {"path": format!("{}/main.asm", WS)}, "breakpoints": [{"line": 3}]}))?;
+        }
         if state == 3 {
             // breakpoint on the `iny` line (1-based line 6)
             c.request("setBreakpoints", json!({"source": {"path": format!("{}/main.asm", WS)}, "breakpoints": [{"line": 6}]}))?;
@@ -175,6 +184,67 @@ fn reach_state(state: usize, dap: &mut Option<DapClient>, notes: &mut Vec<String
             3 => {
                 if c.wait_event("stopped", Duration::from_secs(10)).is_none() {
                     return Err(super::clients::ClientErr::Timeout);
+                }
+            }
+            16 => {
+                if c.wait_event("stopped", Duration::from_secs(10)).is_none() {
+                    return Err(super::clients::ClientErr::Timeout);
+                }
+                // step over a call that never comes back; the answer is not awaited
+                c.send_only("next", json!({"threadId": 1}))?;
+                clock::sleep(Duration::from_millis(3));
+            }
+            15 => {
+                clock::sleep(Duration::from_millis(3));
+                c.flood_without_reading(3_000);
+                clock::sleep(Duration::from_millis(200));
+            }
+            13 => {
+                clock::sleep(Duration::from_millis(3));
+                c.request("pause", json!({"threadId": 1}))?;
+                if c.wait_event("stopped", Duration::from_secs(10)).is_none() {
+                    return Err(super::clients::ClientErr::Timeout);
+                }
+                // three requests a debugger front end may well send; whether they are answered, answered with
+                // an error or not answered at all is not judged here - only what the process does at shutdown
+                let main = format!("{}/main.asm", WS);
+                let awkward: Vec<(&str, Value)> = vec![
+                    ("evaluate", json!({"expression": "ram16($ffff)"})),
+                    ("evaluate", json!({"expression": "ram($10000)"})),
+                    ("evaluate", json!({"expression": "ram(-1)"})),
+                    ("evaluate", json!({"expression": "1 / 0"})),
+                    ("evaluate", json!({"expression": "cpu.a +"})),
+                    ("evaluate", json!({"expression": "no_such_symbol"})),
+                    ("evaluate", json!({"expression": ""})),
+                    ("evaluate", json!({"expression": "cpu.flags.nonsense"})),
+                    ("setVariable", json!({"variablesReference": 1, "name": "A", "value": "999"})),
+                    ("setVariable", json!({"variablesReference": 1, "name": "PC", "value": "1"})),
+                    ("setVariable", json!({"variablesReference": 1, "name": "X", "value": "%2"})),
+                    ("completions", json!({"text": "cpu.", "column": 99})),
+                    ("completions", json!({"text": "cpu.flags.", "column": 0})),
+                    ("completions", json!({"text": "é", "column": 1})),
+                    ("setBreakpoints", json!({"source": {"path": main}, "breakpoints": [{"line": 0}]})),
+                    ("setBreakpoints", json!({"source": {"path": main}, "breakpoints": [{"line": 1, "column": 0}]})),
+                    ("setBreakpoints", json!({"source": {"path": main}, "breakpoints": [{"line": 4000000000u64}]})),
+                    ("setBreakpoints", json!({"source": {"path": "/nowhere/else.asm"}, "breakpoints": [{"line": 2}]})),
+                    ("setBreakpoints", json!({"source": {}, "breakpoints": []})),
+                    ("variables", json!({"variablesReference": 99})),
+                    ("scopes", json!({"frameId": 99})),
+                    ("stackTrace", json!({"threadId": 99})),
+                    ("frobnicate", json!({})),
+                    ("launch", json!({"workspace": WS, "testRunner": {"testCaseName": "t"}})),
+                    ("launch", json!({"workspace": WS, "testRunner": {"testCaseName": "no_such_test"}})),
+                    ("initialize", json!({"clientID": "again"})),
+                    ("configurationDone", Value::Null),
+                ];
+                let mut r = mos_simrt::rng::Rng::new(mos_simrt::rng::derive(seed, "c20.awkward", 0));
+                c.timeout = Duration::from_secs(3);
+                for _ in 0..3 {
+                    let (cmd, args) = r.pick(&awkward).clone();
+                    if c.dead {
+                        break;
+                    }
+                    let _ = c.request(cmd, args);
                 }
             }
             4 => {
@@ -222,6 +292,10 @@ fn reach_state(state: usize, dap: &mut Option<DapClient>, notes: &mut Vec<String
 
 pub fn scenario(case: &Case, slot: &Arc<StdMutex<Option<Verdict>>>) {
     let mut v = Verdict::default();
+    if case.state == 14 {
+        // fault: another process (a second editor window, a forgotten `mos lsp`) holds the debug port
+        net::occupy_port(PORT);
+    }
     let (w, r) = pipe::create();
     let main_done = Arc::new(::std::sync::atomic::AtomicBool::new(false));
     let main_done2 = main_done.clone();
@@ -253,7 +327,7 @@ pub fn scenario(case: &Case, slot: &Arc<StdMutex<Option<Verdict>>>) {
     if let Err(e) = &setup {
         v.notes.push(format!("LSP setup failed: {:?}", e));
     }
-    v.state_reached = setup.is_ok() && reach_state(state, &mut dap, &mut v.notes);
+    v.state_reached = setup.is_ok() && reach_state(state, case.seed, &mut dap, &mut v.notes);
     hist("harness", "state_reached", json!({"state": STATE_NAMES[state], "reached": v.state_reached}));
     clock::sleep(Duration::from_micros(case.delay_us));
     mos_simrt::probe::hit("c20_shutdown_begins");
@@ -559,6 +633,16 @@ pub fn main(cli: &Cli) -> i32 {
     };
     let n = cli.runs.unwrap_or(per_cell * (N_STATES * N_VARIANTS) as u64);
     let seed = cli.seed;
+    if cli.mode.as_deref() == Some("gen") {
+        // print the case with index --from (and run it with --dump for its history)
+        let k: u64 = cli.opts.get("from").and_then(|s| s.parse().ok()).unwrap_or(0);
+        let case = gen_case(seed, k);
+        let silencer = StderrSilencer::new();
+        let r = run_case(&case);
+        drop(silencer);
+        println!("{}", serde_json::to_string_pretty(&json!({"case": case.to_json(), "verdict": format!("{:?}", r.verdict), "inconclusive": r.inconclusive, "found": r.found.as_ref().map(|f| f.message.clone()), "history": history_json(&r.history, 400)})).unwrap());
+        return EXIT_OK;
+    }
     let determinism = cli.mode.as_deref() == Some("determinism");
     let mut ev = Evidence::new(PROP, cli);
     let silencer = StderrSilencer::new();
@@ -727,7 +811,7 @@ pub fn main(cli: &Cli) -> i32 {
         "liveness is judged only after the client's last action: 5 s of simulated time (45 s when `exit` is withheld)".into(),
     ];
     let mut code = conclude(cli, &mut ev, acc.violations);
-    if (acc.inconclusive + acc.state_not_reached) * 50 > acc.runs && code == EXIT_OK {
+    if (acc.inconclusive + acc.state_not_reached) * 25 > acc.runs && code == EXIT_OK {
         eprintln!("harness error: {} of {} executions were inconclusive (step budget) or did not reach their session state", acc.inconclusive + acc.state_not_reached, acc.runs);
         code = EXIT_HARNESS;
     }
